@@ -41,7 +41,7 @@
 #include <unifex/defer.hpp>
 #include <unifex/tracing/async_stack.hpp>
 using namespace unifex;
-using ex::dyn; using ex::erase; using ex::Mode;
+using ex::dyn; using ex::erase; using ex::erase_rv; using ex::Mode;
 
 namespace ex {
 Ctx* g = nullptr;
@@ -53,13 +53,14 @@ enum Kind {
   LEAF, THEN, UPON_ERROR, UPON_DONE, MATDEMAT, UNSTOPPABLE, VIA, ON, DONE_OPT, INTO_VAR, LVSS, LVST, WITH_QUERY, WITH_ALLOC,
   ALLOCATE, ANY_SENDER, LET_VALUE_WITH, VARIANT,
   LETV, LETE, LETD, SEQ, FIN, WALL, WALLR, WANY, SWHEN, RETRY,
+  REPEAT,      // repeat_effect_until(child, "second iteration done"): unary, connects its child as an lvalue once per iteration
   NKIND
 };
 const char* kname[] = {"leaf", "then", "upon_error", "upon_done", "mat_demat", "unstoppable", "via", "on", "done_as_optional", "into_variant",
                        "let_value_with_stop_source", "let_value_with_stop_token", "with_query_value", "with_allocator", "allocate", "any_sender_of",
                        "let_value_with", "variant_sender", "let_value", "let_error", "let_done", "sequence", "finally", "when_all", "when_all_range", "when_any",
-                       "stop_when", "retry_when"};
-int karity(int k) { return k == LEAF ? 0 : k < LETV ? 1 : 2; }
+                       "stop_when", "retry_when", "repeat_effect_until"};
+int karity(int k) { return k == LEAF ? 0 : (k < LETV || k == REPEAT) ? 1 : 2; }
 bool has_callable(int k) { return k == THEN || k == UPON_ERROR || k == UPON_DONE || k == LETV || k == LETE || k == LETD || k == RETRY || k == LET_VALUE_WITH || k == LVSS || k == LVST; }
 
 struct Tree { int kind = LEAF; int leaf = -1; int id = 0; std::vector<Tree> kids; };
@@ -106,7 +107,7 @@ dyn build(const Tree& t) {
     case ANY_SENDER: { auto k0 = t.kids[0]; return ex::erase_factory([k0] { return any_int_sender(build(k0)); }); }
     case LET_VALUE_WITH: { auto k0 = t.kids[0]; return erase(let_value_with([id] { maybe_throw(id); return 3; }, [k0](int&) { return build(k0); })); }
     case LETV: { auto k1 = t.kids[1]; return erase(let_value(build(t.kids[0]), [k1, id](int& x) { maybe_throw(id); return then(build(k1), [&x](int y) noexcept { return x * 1000 + y; }); })); }
-    case LETE: { auto k1 = t.kids[1]; return erase(let_error(build(t.kids[0]), [k1, id](std::exception_ptr) { maybe_throw(id); return build(k1); })); }
+    case LETE: { auto k1 = t.kids[1]; return erase_rv(let_error(build(t.kids[0]), [k1, id](std::exception_ptr) { maybe_throw(id); return build(k1); })); }
     case LETD: { auto k1 = t.kids[1]; return erase(let_done(build(t.kids[0]), [k1, id]() { maybe_throw(id); return build(k1); })); }
     case SEQ: return erase(sequence(voidify(build(t.kids[0])), build(t.kids[1])));
     case FIN: return erase(finally(build(t.kids[0]), voidify(build(t.kids[1]))));
@@ -115,6 +116,7 @@ dyn build(const Tree& t) {
     case WANY: return erase(when_any(build(t.kids[0]), build(t.kids[1])));
     case SWHEN: return erase(stop_when(build(t.kids[0]), voidify(build(t.kids[1]))));
     case RETRY: { auto k1 = t.kids[1]; return erase(retry_when(build(t.kids[0]), [k1, id](std::exception_ptr) { maybe_throw(id); return voidify(build(k1)); })); }
+    case REPEAT: return erase(then(repeat_effect_until(voidify(build(t.kids[0])), [n = 0]() mutable noexcept { return ++n >= 2; }), []() noexcept { return 42; }));
     case VARIANT: { using vs = variant_sender<dyn, decltype(just(0))>;
       // picks one of two statically different sender types at run time: even node ids run the child
       if (id % 2 == 0) return erase(vs{build(t.kids[0])});
@@ -286,6 +288,10 @@ struct Model {
         if (i == 0) { n->saved = r; return start_kid(n, 1); }
         if (r.ch == 'V') return complete(n, n->saved);
         return complete(n, r);
+      case REPEAT:
+        if (r.ch != 'V') return complete(n, r);
+        if (++n->ndone >= 2) return complete(n, Res{'V', 42});
+        return start_kid(n, 0);   // next iteration: the child is connected and started again
       case RETRY:
         if (i == 0) { if (r.ch != 'E') return complete(n, r); if (thrower(n)) return complete(n, fault(n)); return start_kid(n, 1); }
         if (r.ch == 'V') return start_kid(n, 0);   // relaunch the source
@@ -343,7 +349,7 @@ struct Top final : ex::rcv_base {
   int custom() const noexcept override { return 9; }
 };
 
-struct Options { bool stop_events = true; bool faults = false; bool reactive = true; bool check_result = true; bool check_queries = true; bool known_lvss = false; bool ctx_check = false; bool trace_notes = false; };
+struct Options { bool stop_events = true; bool faults = false; bool reactive = true; bool check_result = true; bool check_queries = true; bool known_lvss = false; bool ctx_check = false; bool trace_notes = false; bool lvalue = false; };
 
 std::string g_case;
 void fail(const char* props, const char* key, const std::string& msg) { vmcrt::fail(props, key, (msg + " | case: " + g_case + " | events: " + ex::g->trace).c_str()); }
@@ -363,6 +369,7 @@ void run_tree(Tree t, const Options& opt) {
   ex::Ctx ctx; ex::g = &ctx;
   ctx.leaves.resize(nleaves);
   ctx.defer_sched = opt.ctx_check;   // scheduler hops become events that run on the scheduler's context tag
+  ctx.lvalue_connect = opt.lvalue;
   // leaves below a let_value_with_stop_source are not offered the Reactive mode here: a child that completes inside
   // its stop callback makes let_value_with_stop_source destroy its own stop source while that source is still
   // running request_stop() (recorded finding, demonstrated by the dedicated harness expr_known_lvss)
@@ -564,7 +571,7 @@ std::vector<int> all_kinds() { std::vector<int> v; for (int k = THEN; k < NKIND;
 
 // depth 1: every adaptor over leaves (all outcomes / modes / event orders / stop positions / one throwing callable)
 VMC_SEQ_HARNESS(expr_d1, "C01,C02,C04,C05,C12") {
-  Options o; o.faults = true; o.trace_notes = vmcrt::arg(0, 0) != 0;
+  Options o; o.faults = true; o.trace_notes = vmcrt::arg(0, 0) != 0; o.lvalue = vmcrt::arg(1, 0) != 0;
   run_tree(choose_tree(all_kinds(), {LEAF}, 1), o);
 }
 // depth 2: root = arg0 (one adaptor kind per run so that the work splits over checks), children over the
@@ -572,6 +579,7 @@ VMC_SEQ_HARNESS(expr_d1, "C01,C02,C04,C05,C12") {
 VMC_SEQ_HARNESS(expr_d2, "C01,C02,C04,C05,C12") {
   int root = vmcrt::arg(0, THEN);
   Options o; o.faults = vmcrt::arg(1, 0) != 0; o.reactive = vmcrt::arg(2, 1) != 0; o.stop_events = vmcrt::arg(3, 1) != 0; o.trace_notes = vmcrt::arg(4, 0) != 0;
+  o.lvalue = vmcrt::arg(5, 0) != 0;
   std::vector<int> inner = all_kinds(); inner.insert(inner.begin(), LEAF);
   run_tree(choose_tree({root}, inner, 2), o);
 }
